@@ -16,7 +16,9 @@
 EXTENDS Naturals, Sequences, FiniteSets, TLC, Json, IOUtils
 Rec == ndJsonDeserialize(IOEnv.TRACE)
 ToSet(s) == {s[i] : i \in 1..Len(s)}
-VARIABLES ready, lang, code, highlight, expr, pos, stack, markers, table, file, checkAll, repointVer, last, l
+VARIABLES ready, lang, code, highlight, expr, pos, stack, markers, table, file, checkAll, repointVer, last, l,
+          memo       \* <<getter, text of the expression, selection, answer>> of every Ok answer so far (C10: an answer is a function
+                     \* of the expression and the selection - whatever was selected, damaged, repaired or navigated in between)
 
 \* the constants of Session, read off the trace
 Seen == {Rec[i].st.expr : i \in 1..Len(Rec)} \ {"#none"}
@@ -47,19 +49,24 @@ StepReason(e) ==
   ELSE IF e.op = "get_spoken_text" /\ e.res = "ok" /\ expr # "#none" /\ ~S!FreshAfter("speech") THEN "speech-from-a-table-that-is-not-the-current-one"
   ELSE IF e.op \in {"get_braille", "get_navigation_node_from_braille_position"} /\ e.res = "ok" /\ expr # "#none" /\ ~S!FreshAfter("braille")
        THEN "braille-from-a-table-that-is-not-the-current-one"
+  ELSE IF e.op \in {"get_spoken_text", "get_braille"} /\ e.res = "ok" /\ "out" \in DOMAIN e /\ e.out # ""
+          /\ (\E m \in memo : m[1] = e.op /\ m[2] = e.text /\ m[3] = (IF e.op = "get_spoken_text" THEN <<lang'>> ELSE <<code', lang'>>) /\ m[4] # e.out)
+       THEN "answer-differs-for-the-same-expression-and-selection"
   ELSE IF e.op \in {"get_spoken_text", "get_braille"} /\ e.res # "ok" /\ file' = file /\ checkAll /\ ready /\ expr # "#none"
           /\ (\A k \in {"speech", "braille"} : S!Cur(k).good) THEN "getter-fails-although-every-rule-file-is-good"
   ELSE "ok"
 
 TInit == /\ l = 1 /\ ready = FALSE /\ lang = Rec[1].st0.lang /\ code = Rec[1].st0.code /\ highlight = "Off" /\ expr = "#none" /\ pos = "#nonode"
          /\ stack = <<>> /\ markers = {} /\ table = Rec[1].st0.table /\ file = Rec[1].st0.file /\ checkAll = Rec[1].st0.checkAll
-         /\ repointVer = Rec[1].st0.repointVer /\ last = [op |-> "init", res |-> "ok"]
+         /\ repointVer = Rec[1].st0.repointVer /\ last = [op |-> "init", res |-> "ok"] /\ memo = {}
 TNext == /\ l <= Len(Rec)
          /\ l' = l + 1
          /\ LET e == Rec[l] IN
             /\ Bind(e.st, e.op, e.res)
             /\ (StepReason(e) # "ok" => PrintT(<<"REJECT", l, StepReason(e)>>))
             /\ IF e.op = "environment" \/ S!Next THEN TRUE ELSE PrintT(<<"DRIFT", l, e.op>>)
-TSpec == TInit /\ [][TNext]_<<ready, lang, code, highlight, expr, pos, stack, markers, table, file, checkAll, repointVer, last, l>>
+            /\ memo' = IF e.op \in {"get_spoken_text", "get_braille"} /\ e.res = "ok" /\ "out" \in DOMAIN e /\ e.out # ""
+                       THEN memo \cup {<<e.op, e.text, IF e.op = "get_spoken_text" THEN <<e.st.lang>> ELSE <<e.st.code, e.st.lang>>, e.out>>} ELSE memo
+TSpec == TInit /\ [][TNext]_<<ready, lang, code, highlight, expr, pos, stack, markers, table, file, checkAll, repointVer, last, l, memo>>
 Consumed == PrintT(<<"CONSUMED", TLCGet("stats").diameter - 1>>)
 =============================================================================
